@@ -13,7 +13,7 @@ import mutest
 
 SRC = os.environ.get("SEED_SRC", "/tmp/mut_out")
 DST = "/verif/seeded"
-EXTRA = {"C11": ["C01"], "C02": ["C01"], "C01": ["C11"], "C09": ["C15"], "C10": [], "C05": ["C06"]}
+EXTRA = {"C11": ["C01"], "C02": ["C01"], "C01": ["C11"], "C09": ["C15"], "C10": [], "C05": ["C06"], "C08": ["C07"]}
 
 
 def needs_of(notes):
